@@ -167,8 +167,8 @@ def trace_rows(ck, nfiles):
         ck.violation({'site': 'parse_generic_csv', 'clause': sorted(clauses), 'via': 'trace_rows', 'delimiter': r['_source'].get('delimiter', ',')},
                      {'file_text': r['_text'], 'source': r['_source'], 'decimal': r['_dec'], 'rows_as_read_by_harness': r['rows'],
                       'observed': r['obs'], 'cfg': r['cfg'], 'header': r['header'], 'tmap': r['tmap']},
-                     'recorded parse_generic_csv result is not Rows!Parse of the file (%s): source %s, decimal %s' % (
-                         sorted(clauses), r['_source'], r['_dec']))
+                     'recorded parse_generic_csv result is not Rows!Parse of the file (%s%s): source %s, decimal %s' % (
+                         sorted(clauses), ' - ' + r['_raised'] if r.get('_raised') else '', r['_source'], r['_dec']))
 
 
 def _lt_worker(seed, n):
